@@ -70,6 +70,11 @@ type Session struct {
 	// global - (Writers), or calls such a definition (Callers): the generator asserts it; no call of theirs may ever
 	// be remembered (model-free store oracle, signatures remembered:impure-call / remembered:caller-of-impure-call)
 	Writers, Callers []int
+	// definitions of which every successful call returns a closure (makers and wrappers): never remembered either
+	Closures []int
+	// NoNew[i] = definitions that must not get a NEW cache entry at input i (the call reads a global that holds plain data
+	// at that moment; an older entry, stored while the name held a function, may legitimately still be there)
+	NoNew map[int][]int
 }
 
 func vi(z int64) Val   { return Val{K: 'i', Z: z} }
@@ -633,6 +638,54 @@ func (s *Session) rebinds(upTo int) bool {
 	return false
 }
 
+// readsRebound: some definition reads (not in callee position) a global name that held a FUNCTION and was bound again at the
+// top level before the input. Reading a function-valued root binding is not a miss, so a result computed from it without
+// calling it (e.g. an error swallowed by catch) is remembered and goes stale when the name is rebound: the same root cause
+// as the redefined callee, recorded as its own narrow finding.
+func (s *Session) readsRebound(upTo int) bool {
+	held, top := map[string]bool{}, map[string]bool{}
+	var walkTop func(e *Expr)
+	walkTop = func(e *Expr) {
+		switch e.K {
+		case 'A':
+			if held[e.X] {
+				top[e.X] = true
+			}
+			held[e.X] = e.Sub[0].K == 'F'
+		case 'F':
+			if n := s.Defs[e.D].Name; n != "" {
+				if held[n] {
+					top[n] = true
+				}
+				held[n] = true
+			}
+		}
+		for _, x := range e.Sub {
+			walkTop(x)
+		}
+	}
+	for i := 0; i < upTo && i < len(s.Inputs); i++ {
+		walkTop(s.Inputs[i])
+	}
+	for _, d := range s.Defs {
+		found := false
+		var walk func(e *Expr, callee bool)
+		walk = func(e *Expr, callee bool) {
+			if e.K == 'V' && !callee && top[e.X] && e.X != d.Name && !member(e.X, d.Params) {
+				found = true
+			}
+			for i, x := range e.Sub {
+				walk(x, e.K == 'C' && i == 0)
+			}
+		}
+		walk(d.Body, false)
+		if found {
+			return true
+		}
+	}
+	return false
+}
+
 // constParamClash: some definition has a constant-named parameter P and the top level bound the constant P before the input
 // (a call remembered before that binding hides the "attempt to change constant" error of the same call afterwards)
 func (s *Session) constParamClash(upTo int) bool {
@@ -701,6 +754,11 @@ func (c *Ctx2) session(s *Session) {
 					bad = "remembered:caller-of-impure-call"
 				}
 			}
+			for _, w := range s.Closures {
+				if bad == "" && strings.HasPrefix(e, Hx([]byte(s.Defs[w].Key))+"(") {
+					bad = "remembered:call-returning-closure"
+				}
+			}
 			if bad != "" {
 				c.Count("diff=" + bad)
 				c.Fail(bad, s.text(), fmt.Sprintf("after input %d %q the cache holds %s", i, s.Inputs[i].src(s), e))
@@ -709,6 +767,24 @@ func (c *Ctx2) session(s *Session) {
 		}
 		if bad != "" {
 			break
+		}
+	}
+	for i, ds := range s.NoNew {
+		if i == 0 || i >= len(on) {
+			continue
+		}
+		before := map[string]bool{}
+		for _, e := range on[i-1].Entries {
+			before[e] = true
+		}
+		for _, e := range on[i].Entries {
+			for _, d := range ds {
+				if !before[e] && strings.HasPrefix(e, Hx([]byte(s.Defs[d].Key))+"(") {
+					c.Count("diff=remembered:read-of-data-variable")
+					c.Fail("remembered:read-of-data-variable", s.text(), fmt.Sprintf("input %d %q added the cache entry %s", i, s.Inputs[i].src(s), e))
+					return
+				}
+			}
 		}
 	}
 	// direct oracle: cache on vs cache off, per input
@@ -734,6 +810,8 @@ func (c *Ctx2) session(s *Session) {
 			sig = "closed-fragment-differs"
 		case s.rebinds(i):
 			sig = "stale-hit:redefined-callee"
+		case s.readsRebound(i):
+			sig = "stale-hit:function-valued-binding-read-then-rebound"
 		default:
 			sig = "cache-observable:unexplained"
 		}
@@ -746,6 +824,7 @@ func (c *Ctx2) session(s *Session) {
 		c.seen[sig]++
 		known := sig == "log-not-replayed" || sig == "stale-hit:redefined-callee" || sig == "stale-hit:function-name-via-self" ||
 			sig == "stale-hit:constant-parameter-then-global" ||
+			sig == "stale-hit:function-valued-binding-read-then-rebound" ||
 			(strings.HasPrefix(sig, "stale-hit:printed-text-collision:") && !strings.HasSuffix(sig, ":unclassified"))
 		if !known || c.seen[sig] <= 40 {
 			c.Fail(sig, s.text(), detail)
@@ -814,6 +893,27 @@ func corpus() []*Session {
 	mk("mech:sliced-small-map-as-key", func(s *Session) {
 		s.Inputs = []*Expr{raw(`m = {"a":1,"b":2,"c":[1,2,3,4,5,6,7,8,9]}`), raw(`f = func(x){println("in f", x); len(x)}`), raw("f(m[0:2])"), raw("f(m[0:2])"),
 			raw(`f({"a":1,"b":2})`), raw("a = [1,2,func(){1}]"), raw("f(a[0:2])"), raw("f([1,2])"), raw("f(rest(m))")}
+	})
+	// a function-valued name rebound to data, read by a closure through its maker's frame and by a recursion child
+	mk("mech:kind-of-value-changes", func(s *Session) {
+		lam := func(k int64) *Expr { return s.fn("", nil, li(k)) }
+		s.Inputs = []*Expr{asg("v", lam(1)), s.fn("mk", nil, seq(v("v"), s.fn("", nil, v("v")))), asg("c", cn("mk")), asg("v", li(5)), cn("c"), asg("v", li(6)), cn("c"),
+			asg("v", li(7)), cn("c"), asg("v", lam(2)), cn("c"), asg("v", li(8)), cn("c"),
+			s.fn("rr", []string{"n"}, iff(lt(v("n"), li(1)), v("v"), seq(v("v"), asg("v", li(5)), cn("rr", sub(v("n"), li(1)))))), asg("v", lam(3)), cn("rr", li(1)),
+			asg("v", li(6)), cn("rr", li(0)), cn("rr", li(0))}
+	})
+	// closures handed out through wrappers without a literal of their own: instances stay independent
+	mk("mech:closure-through-wrappers", func(s *Session) {
+		counter := s.fn("counter", []string{"p"}, s.fn("", nil, asg("p", add(v("p"), li(1)))))
+		nc := s.fn("nc", []string{"p"}, seq(prt(lit(vs("new")), v("p")), cn("counter", v("p"))))
+		nc2 := s.fn("nc2", []string{"p"}, cn("nc", v("p")))
+		s.Closures = []int{counter.D, nc.D, nc2.D}
+		s.Inputs = []*Expr{counter, nc, nc2, asg("a", cn("nc", li(0))), asg("b", cn("nc", li(0))), cn("a"), cn("a"), cn("b"), asg("c", cn("nc2", li(0))), asg("d", cn("nc2", li(0))),
+			cn("c"), cn("d"), cn("c"), cn("a")}
+	})
+	// known finding: a function-valued root binding read (not called) under catch, then rebound to data
+	mk("finding:function-valued-binding-read-then-rebound", func(s *Session) {
+		s.Inputs = []*Expr{asg("v", s.fn("", nil, li(0))), asg("f", s.fn("", nil, cerr(add(v("v"), li(1))))), cn("f"), asg("v", li(1)), cn("f")}
 	})
 	// known finding: the function's name is not in the key but visible through self
 	mk("keycollision:function-name-via-self", func(s *Session) {
@@ -1939,6 +2039,142 @@ func (c *Ctx2) macroSession() *Session {
 	return s
 }
 
+// a name whose KIND of value changes over the session (function -> data -> function ...), read through closures whose
+// maker frame outlives the call (the maker read the name too, so the closure finds a Reference in an intermediate frame)
+// and through recursion parents: whether a read is a miss must be judged by the CURRENT value
+func (c *Ctx2) kindChangeSession() *Session {
+	s := &Session{Tag: "random-kind-change"}
+	r := c.R
+	lam := func(k int64) *Expr { return s.fn("", nil, li(k)) }
+	val := func(i int) *Expr { // alternates kinds, starting with a function
+		if i%2 == 0 {
+			return lam(int64(i))
+		}
+		return li(int64(10 + i))
+	}
+	s.Inputs = append(s.Inputs, asg("v", val(0)))
+	recursion := r.Pct(35)
+	if recursion {
+		// the parent frame reads v (a function: no miss) and rebinds it; the child frame reads it through the parent's reference
+		body := iff(lt(v("n"), li(1)), v("v"), seq(v("v"), asg("v", li(5)), cn("rr", sub(v("n"), li(1)))))
+		if r.Bool() {
+			body = iff(lt(v("n"), li(1)), seq(prt(lit(vs("r"))), v("v")), seq(v("v"), cn("rr", sub(v("n"), li(1)))))
+		}
+		rrDef := s.fn("rr", []string{"n"}, body)
+		s.Inputs = append(s.Inputs, rrDef)
+		s.NoNew = map[int][]int{}
+		writes := body.Sub[2].K == 'S' && body.Sub[2].Sub[1].K == 'S' // the variant that sets v = 5 before recursing
+		data := false                                                 // does v hold plain data now?
+		call := func(k int64) {
+			if data {
+				s.NoNew[len(s.Inputs)] = []int{rrDef.D}
+			}
+			s.Inputs = append(s.Inputs, cn("rr", li(k)))
+			if writes && k > 0 {
+				data = true
+			}
+		}
+		for i, n := 1, 4+r.Intn(4); i < n; i++ {
+			call(int64(r.Intn(2)))
+			if r.Bool() {
+				s.Inputs = append(s.Inputs, asg("v", val(i)))
+				data = i%2 == 1
+				call(0)
+				call(0)
+			}
+		}
+		return s
+	}
+	var inner *Expr
+	switch r.Intn(3) {
+	case 0:
+		inner = s.fn("", nil, v("v"))
+	case 1:
+		inner = s.fn("", nil, seq(prt(lit(vs("c"))), arr(v("v"), li(0))))
+	default:
+		inner = s.fn("", nil, iff(cerr(add(v("v"), li(1))), li(-1), add(v("v"), li(1))))
+	}
+	mkBody := seq(v("v"), inner)
+	if r.Pct(30) {
+		mkBody = inner // the maker does not read the name itself
+	}
+	s.Inputs = append(s.Inputs, s.fn("mk", nil, mkBody), asg("c", cn("mk")))
+	closures := []string{"c"}
+	s.NoNew = map[int][]int{}
+	for i, n := 1, 4+r.Intn(4); i < n; i++ {
+		s.Inputs = append(s.Inputs, asg("v", val(i)))
+		for j, m := 0, 1+r.Intn(2); j < m; j++ {
+			if i%2 == 1 { // v holds plain data: the closure's read of it is a miss, nothing new may be remembered for it
+				s.NoNew[len(s.Inputs)] = []int{inner.D}
+			}
+			s.Inputs = append(s.Inputs, cn(closures[r.Intn(len(closures))]))
+		}
+		if r.Pct(25) && len(closures) < 3 {
+			name := []string{"a", "b"}[len(closures)-1]
+			s.Inputs = append(s.Inputs, asg(name, cn("mk")))
+			closures = append(closures, name)
+		}
+	}
+	return s
+}
+
+// closures returned THROUGH one or two wrapper functions that contain no function literal themselves (also stored in an
+// array by the wrapper): several instances made with equal arguments, each instance's captured state stays independent
+func (c *Ctx2) wrapperSession() *Session {
+	s := &Session{Tag: "random-wrapper"}
+	r := c.R
+	mark := func(e *Expr) *Expr {
+		f := e
+		if f.K == 'A' {
+			f = f.Sub[0]
+		}
+		s.Closures = append(s.Closures, f.D)
+		return e
+	}
+	var inner *Expr
+	switch r.Intn(3) {
+	case 0:
+		inner = s.fn("", nil, asg("p", add(v("p"), li(1))))
+	case 1:
+		inner = s.fn("", nil, seq(asg("p", add(v("p"), li(1))), prt(v("p")), v("p")))
+	default:
+		inner = s.fn("", []string{"q"}, asg("p", add(v("p"), v("q"))))
+	}
+	withArg := len(s.Defs[inner.D].Params) == 1
+	s.Inputs = append(s.Inputs, mark(s.fn("counter", []string{"p"}, inner)))
+	top := "counter"
+	w1 := cn("counter", v("p"))
+	if r.Bool() {
+		w1 = seq(prt(lit(vs("new")), v("p")), cn("counter", v("p")))
+	}
+	s.Inputs = append(s.Inputs, mark(s.fn("nc", []string{"p"}, w1)))
+	top = "nc"
+	if r.Bool() {
+		s.Inputs = append(s.Inputs, mark(asg("nc2", s.fn("", []string{"p"}, cn("nc", v("p"))))))
+		top = "nc2"
+	}
+	boxed := r.Pct(30)
+	if boxed { // the wrapper puts the closure into an array; taken out again with raw grol (indexing is not in the model)
+		s.Inputs = append(s.Inputs, mark(asg("box", s.fn("", []string{"p"}, arr(cn(top, v("p")), v("p"))))))
+		s.Inputs = append(s.Inputs, raw("b1 = box(0)"), raw("b2 = box(0)"), raw("b1[0]("+map[bool]string{true: "1", false: ""}[withArg]+")"),
+			raw("b1[0]("+map[bool]string{true: "1", false: ""}[withArg]+")"), raw("b2[0]("+map[bool]string{true: "1", false: ""}[withArg]+")"))
+		return s
+	}
+	insts := []string{"a", "b", "c"}[:2+r.Intn(2)]
+	for _, n := range insts {
+		s.Inputs = append(s.Inputs, asg(n, cn(top, li(0))))
+	}
+	for i, n := 0, 4+r.Intn(5); i < n; i++ {
+		name := insts[r.Intn(len(insts))]
+		if withArg {
+			s.Inputs = append(s.Inputs, cn(name, li(1)))
+		} else {
+			s.Inputs = append(s.Inputs, cn(name))
+		}
+	}
+	return s
+}
+
 func runC04(c0 *Ctx) {
 	c := &Ctx2{Ctx: c0, seen: map[string]int{}}
 	log.SetOutput(io.Discard)
@@ -1955,7 +2191,7 @@ func runC04(c0 *Ctx) {
 		"oracle: no call of such a writer or of its callers may appear in the cache); each run cache on and cache off on the implementation (direct oracle) and on the extracted model. " +
 		"non-trivial = distinct session that ends with a non-empty cache"
 	// every identifier the generator uses must be free in a fresh state (not an extension, not a predefined function)
-	for _, name := range []string{"f", "g", "h", "id", "mk", "a", "b", "c", "d", "w", "k", "x", "y", "t", "n", "m", "p", "q", "r", "s", "X", "N", "F", "fib", "f2", "k4", "v", "nx", "tw", "tt", "m", "vf", "wy", "A", "pick", "fa", "fb", "slow", "sc", "fr", "K", "LEVEL", "LIMIT", "base", "fm", "fk", "m4", "a8", "sq", "get", "gy", "ARG", "N1", "Y"} {
+	for _, name := range []string{"f", "g", "h", "id", "mk", "a", "b", "c", "d", "w", "k", "x", "y", "t", "n", "m", "p", "q", "r", "s", "X", "N", "F", "fib", "f2", "k4", "v", "nx", "tw", "tt", "m", "vf", "wy", "A", "pick", "fa", "fb", "slow", "sc", "fr", "K", "LEVEL", "LIMIT", "base", "fm", "fk", "m4", "a8", "sq", "get", "gy", "ARG", "N1", "Y", "rr", "counter", "nc", "nc2", "box", "b1", "b2"} {
 		st := eval.NewState()
 		st.Out, st.LogOut = io.Discard, io.Discard
 		res, _ := evalProtected(st, parser.New(lexer.New(name)).ParseProgram())
@@ -1982,7 +2218,14 @@ func runC04(c0 *Ctx) {
 		case 3:
 			c.session(c.redefSession())
 		case 4:
-			c.session(c.toggleSession())
+			switch (i / 10) % 3 {
+			case 0:
+				c.session(c.toggleSession())
+			case 1:
+				c.session(c.kindChangeSession())
+			default:
+				c.session(c.wrapperSession())
+			}
 		case 5:
 			switch (i / 10) % 4 {
 			case 0:
